@@ -295,6 +295,22 @@ func NAME(a int, b int) (res int) {
 	return res
 }
 `))
+	// a commutative operation on the FIRST computed value and the FIRST parameter (and on the
+	// second of each): registers of different kinds that carry the same ordinal
+	n = next()
+	out = append(out, tmpl(n, SigII, true, []string{"same-ordinal-operands"}, nil, `func NAME(a int, b int) (res int) {
+	d := a - b
+	return d `+c("*", "+", "^", "&")+` a
+}
+`))
+	n = next()
+	out = append(out, tmpl(n, SigII, true, []string{"same-ordinal-operands"}, nil, `func NAME(a int, b int) (res int) {
+	d := a - 3
+	e := d / 2
+	res = e `+c("|", "*", "+")+` b
+	return res - d
+}
+`))
 	// a loop without an init statement, entered straight from the two arms of an if/else that
 	// give the counter different start values: the header has two entry edges, and which one
 	// comes first follows the order in which the source lists the arms
